@@ -79,7 +79,7 @@ CLAIMS = {
              "xor-shift, odd multiplication, xor constant - judged step by step on the return terms, helper mixers in line) "
              "with a xor-shift and a multiplication over hash() / a child fingerprint / a nested fold, and nested folds start "
              "from len() and a per-type tag: no collision FAMILY by construction (-5 ~ 2**61-6, [a,b] ~ [a+d,b-d*B], a 2x2 "
-             "table ~ its transpose, 5 ~ (5,) ~ [5] were all real on the pinned tree; fixed 17c195f).",
+             "table ~ its transpose, 5 ~ (5,) ~ [5] were all real on the pinned tree; fixed 17c195f). No hash(x) is reachable for a float, complex or other-typed (Decimal) NaN: the path conditions of every return are evaluated per NaN kind.",
         note="Trusted: hash() of element values; that a 61-bit fold has SOME collisions is unavoidable and not decided "
              "(the statement excludes hash-equal pairs; C16.f excludes the constructible families).",
         technique="CFG must-pass-through (store -> invalidation) + MRO resolution + dataflow slice of the fold + effect summaries + "
@@ -93,7 +93,7 @@ CLAIMS = {
              "transition function at every reachable state up to observational equivalence (=> order and length "
              "independence of EVERY finite sequence by induction), equality with the statement's join for all 16384 "
              "type sets of the core domain and all small sets of the extended one, and for promote_with: equals the binary "
-             "join, never narrows, keeps nullability, idempotent, commutes, for every (dtype, value type) pair.",
+             "join, never narrows, keeps nullability, idempotent, commutes, for every (dtype, value type) pair. A dtype whose kind is a SUBCLASS of a ladder kind (Vector(xs, dtype=MyFloat)) is never promoted below the builtin kind it stands for (abstract evaluation over sub_int / sub_float / sub_date / sub_datetime kinds).",
         note="Trusted: the evaluator's semantics of is/==/in/isinstance/issubclass/type() on type tags and of the statement "
              "subset (anything outside the subset is exit 2, never a pass). Exhaustive over the finite tag domain.",
         technique="finite abstract interpretation of the source (automaton extraction) + exhaustive law checking with partition refinement",
@@ -133,7 +133,7 @@ CLAIMS = {
              "loop appends or raises; row selections map the same key over all columns; by-name lookup is exact-name-first; the "
              "comparison forms of the single-name and the multi-name branch (column / position / name abstracted) are the same set; "
              "table masks are length-checked by a raise in their own branch; Table comparisons pair column-wise only with a 2-D "
-             "operand and keep a None entry's row False.",
+             "operand and keep a None entry's row False. A table without rows compared with a sequence keeps the table form; the empty list certainly reaches no refusal (vector of length 0 and 3, table of length 0: three-valued evaluation of every raise's path condition under key = []).",
         note="Slice arithmetic (typeutils.slice_length) is numeric and not decided; value equality with list slicing is "
              "delegated to tuple.__getitem__.",
         technique="construction-site matchers + CFG reachability + flag-sensitive must-pass-through + R-FALSY lint + term-domain abstract interpretation of the multi-name selection (search-idiom terms)",
@@ -146,7 +146,7 @@ CLAIMS = {
              "nothing is returned for a sequence operand before that comparison, reflected addition puts the other operand "
              "on the left, table arithmetic maps over exactly self.cols() / pairs columns after a width check, all 65 "
              "_String/_Date wrappers apply the method of their own name with the caller's arguments and keep None, "
-             "MethodProxy/__getattr__ look the attribute up on the ELEMENT, and every self./super(). call resolves.",
+             "MethodProxy/__getattr__ look the attribute up on the ELEMENT, and every self./super(). call resolves. Table.bit_lshift / bit_rshift route column by column like the operators; a date comparison with the elements of a <datetime> vector widens BOTH operands; dates + days recognises a vector of day counts by its values (three-valued evaluation under a 1-D vector not labelled int whose elements are ints).",
         note="Numeric equality of results is delegated to operator.* and not decided; dtype of results is C03/C04.",
         technique="dispatch-table and template matchers over the AST + CFG guard analysis + MRO call resolution",
         design="2/C05"),
@@ -160,7 +160,7 @@ CLAIMS = {
              "(shared with C03); Table.__setitem__ resolves columns first and only delegates to column writes; with several target "
              "columns the whole assignment is REHEARSED on Table(<copies of the target columns>) with the same row spec and value "
              "before the first store (all-or-nothing), Vector keys / values are snapshotted first, an untyped empty vector key "
-             "reaches no raise (the final raise's path condition is evaluated for that key), Row.__setitem__ only raises.",
+             "reaches no raise (the final raise's path condition is evaluated for that key), Row.__setitem__ only raises. The value of a table assignment is judged per KIND (vector, list, tuple, one-shot iterator): the sequence written item by item holds copies of its vectors; a whole-value store is feasible for a vector and for any non-list sequence; every item of a list of target columns becomes a target or raises (CFG must-pass); the empty list key reaches no refusal on a vector of 3 (three-valued evaluation).",
         note="Equality with list assignment as values (range/slice arithmetic, typeutils.slice_length) is numeric and not decided.",
         technique="CFG reachability between mutation events and may-raise events + effect summaries + finite abstract interpretation",
         design="2/C08"),
@@ -211,7 +211,7 @@ CLAIMS = {
              "position); every path of __getattr__/__setattr__/__setitem__(str) that returned no positional accessor passes "
              "through the map lookup (CFG must-pass); the map is read only through the rebuild-if-renamed helper, built maps are "
              "always stored, every store to a column name in a Table method is followed by a rebuild; nothing writes stored "
-             "names; string indexing is exact-name-first.",
+             "names; string indexing is exact-name-first. The accessor form that Table.__getitem__ rebuilds for a repeated name is evaluated in the kernel's repeat situations (base ending in '_' or not) and equals the accessor map's.",
         note="Pairwise distinctness of accessors is argued from the decided ingredients (suffix rules + own position), not enumerated.",
         technique="decomposition of the sanitiser's returned term into its pipeline stages + regex syntax-tree analysis + accessor kernels evaluated per situation by term simplification + CFG feasible-path must-pass-through + who-may-read rule",
         design="2/C17"),
@@ -224,7 +224,7 @@ CLAIMS = {
              "copying and restores them by position; >> names a FRESH copy with the dict key; join results take source names "
              "with matching buffer index; aggregate/window keys and outputs pass through uniquify (shape-checked, sibling-equal; the key "
              "name is evaluated for the stored names None / '' / word); a table's OWN name survives every row selection and "
-             "sort_by; table << rows, rows << table and vector (op) table name each fresh column after the column at its position.",
+             "sort_by; table << rows, rows << table and vector (op) table name each fresh column after the column at its position. Every public Vector method that returns the vector kernel is overridden in Table (sibling agreement: bit_lshift / bit_rshift), copies of a 2-D OTHER operand in the vector kernels drop the table name, and every Table(...) built by Table.__getitem__ (column selections, 2-D slices) carries self._name.",
         note="The concrete suffix numbers chosen by uniquify are not decided.",
         technique="construction-site name provenance + finite abstract evaluation of the naming decision function + term-domain abstract interpretation of join / aggregate / window / construction naming + sibling comparison",
         design="2/C18"),
